@@ -270,6 +270,7 @@ pub fn run(a: &Args) -> i32 {
     let mut w = std::io::BufWriter::new(std::fs::File::create(&out).unwrap());
     let mut runs = 0u64;
     let mut bad = 0u64;
+    let max_bad = a.n("max-bad", 8) as u64;
     let mut sample: Vec<Value> = Vec::new();
     let mut tracew = if a.has("trace-out") {
         Some(std::io::BufWriter::new(std::fs::File::create(a.s("trace-out", "")).unwrap()))
@@ -287,6 +288,9 @@ pub fn run(a: &Args) -> i32 {
         let all: Value = serde_json::from_str(&std::fs::read_to_string(a.s("orderings", "")).unwrap()).unwrap();
         for (idx, o) in all.as_array().unwrap().iter().enumerate() {
             crate::tick();
+            if bad >= max_bad {
+                break; // a verdict needs examples, not every failing ordering (each may wait for timeouts)
+            }
             prepare(&path);
             let mut ws: HashMap<i64, W> = HashMap::new();
             let trace = std::rc::Rc::new(std::cell::RefCell::new(vec![json!({"ev":"reset","exists":exists,"idx":idx})]));
@@ -383,6 +387,9 @@ pub fn run(a: &Args) -> i32 {
     let mut rng = StdRng::seed_from_u64(a.n("seed", 1) as u64);
     for i in 0..a.n("ungated", 0) {
         crate::tick();
+        if bad >= max_bad {
+            break;
+        }
         prepare(&path);
         let mut ws: HashMap<i64, W> = HashMap::new();
         let mut params: Vec<Value> = Vec::new();
